@@ -25,7 +25,10 @@ escaped).  The judge folds `jstep` over the observations:
               dirty page was dropped without write-back; too large: a write-back was counted for
               nothing.  Moreover `dirty_pages` rises in no segment other than a returning
               `write_page` (by at most one), and right after a `write_page` returned at least one
-              page is dirty;
+              page is dirty.  Per page: a returning `write_page(p)` may leave `Φ` unchanged only if `p`
+              can be dirty already, i.e. another `write_page(p)` has returned since `dirty_pages` was
+              last observed to be 0 — otherwise the written page was not left dirty (the write is
+              lost: nothing will ever write it back);
 * lru         "eviction removes the entry its policy designates" (least recently used), judged through
               hits and misses while the calls so far did not overlap and read-ahead is off: a
               `read_page` / `write_page` of page `p` is a hit iff `p` is among the `capacity_pages`
@@ -81,6 +84,7 @@ structure JSt where
   fl : List FlushRec := []       -- flushes in flight
   seq : Bool := true             -- no two calls have overlapped so far
   recent : List Nat := []        -- distinct pages by recency of access, most recent first
+  mayDirty : List Nat := []      -- pages a `write_page` returned for since `dirty_pages` was last seen 0
 deriving Repr, DecidableEq
 
 def debtOf : List (Nat × Nat) → Nat → Option Nat
@@ -119,7 +123,9 @@ def jstep (cap ra : Nat) (j : JSt) (o : Obs) : Except String JSt :=
   let finished := o.res.isSome
   -- there must be a debt b' ∈ [0, debtMax] and a gain ∈ [gainMin, gainMax] with phi' + b' = phi + b + gain
   let gainMax := if wfin then 1 else 0
-  let gainMin := if wfin && first && o.m == j.m + 1 then 1 else 0
+  -- per page: a page can only be dirty already if a `write_page` of it has returned since
+  -- `dirty_pages` was last observed to be 0; otherwise the returning write must have dirtied it
+  let gainMin := if wfin && ((first && o.m == j.m + 1) || !j.mayDirty.contains o.page) then 1 else 0
   let debtMax := if o.kind == .flush || finished then 0 else 1
   if phi' + debtMax < phi + b + gainMin then .error "pagecache/writeback/dirty-page-dropped"
   else if phi + b + gainMax < phi' then .error "pagecache/writeback/counted-more-than-dirtied"
@@ -138,6 +144,7 @@ def jstep (cap ra : Nat) (j : JSt) (o : Obs) : Except String JSt :=
   if access && seq && ra == 0 && !(if expectHit then hit else miss) then .error "pagecache/lru/hit-miss-not-lru"
   else
   let recent := if access then o.page :: j.recent.filter (· != o.page) else j.recent
+  let md := if o.d == 0 then [] else if wfin then o.page :: j.mayDirty else j.mayDirty
   -- flushes: every other flush in flight is no longer alone
   let others := (j.fl.filter (·.i != o.i)).map fun f => { f with alone := false }
   if o.kind == .flush then
@@ -147,11 +154,11 @@ def jstep (cap ra : Nat) (j : JSt) (o : Obs) : Except String JSt :=
       if me.alone && n != me.d0 then .error "pagecache/flush/return-ne-dirty-at-start"
       else if me.alone && o.d != 0 then .error "pagecache/flush/dirty-left-after-flush"
       else if me.alone && o.w != me.w0 + n then .error "pagecache/flush/writebacks-ne-return"
-      else .ok { c := o.c, d := o.d, h := o.h, m := o.m, e := o.e, w := o.w, r := o.r, rw := rw, fl := others, seq := seq, recent := recent }
+      else .ok { c := o.c, d := o.d, h := o.h, m := o.m, e := o.e, w := o.w, r := o.r, rw := rw, fl := others, seq := seq, recent := recent, mayDirty := md }
     | some _ => .error "pagecache/flush/malformed-result"
-    | none => .ok { c := o.c, d := o.d, h := o.h, m := o.m, e := o.e, w := o.w, r := o.r, rw := rw, fl := me :: others, seq := seq, recent := recent }
+    | none => .ok { c := o.c, d := o.d, h := o.h, m := o.m, e := o.e, w := o.w, r := o.r, rw := rw, fl := me :: others, seq := seq, recent := recent, mayDirty := md }
   else
-    .ok { c := o.c, d := o.d, h := o.h, m := o.m, e := o.e, w := o.w, r := o.r, rw := rw, fl := others, seq := seq, recent := recent }
+    .ok { c := o.c, d := o.d, h := o.h, m := o.m, e := o.e, w := o.w, r := o.r, rw := rw, fl := others, seq := seq, recent := recent, mayDirty := md }
 
 /-- `none` = every clause holds on the observed run -/
 def judge (cap ra : Nat) : JSt → List Obs → Option String
